@@ -28,6 +28,7 @@ EXPLANATION = (
     "(MERGE) the annealing move evaluator, by symbolic case analysis (index on the left / "
     "right / both operands): merged count, survival test, stored count, cost once, size "
     "iff kept. "
+    'Round 7: (FRESHSUB, shared with C16-FRESH) a reported score comes from a sub-optimizer without history. '
 )
 ASSUMPTIONS = ("merged appearance count never exceeds the global count",)
 
